@@ -15,6 +15,21 @@ gen_manifest() {
   sed "s#@REPO@#$REPO#g" "$ENGINE/Cargo.toml.in" > "$tmp" || return 1
   if ! cmp -s "$tmp" "$ENGINE/Cargo.toml"; then mv "$tmp" "$ENGINE/Cargo.toml"; else rm -f "$tmp"; fi
   if [ ! -f "$ENGINE/Cargo.lock" ]; then cp "$REPO/Cargo.lock" "$ENGINE/Cargo.lock" || return 1; fi
+  # the zoo crates' sources are generated; cargo needs them to exist to load the workspace
+  local k
+  for k in 0 1 2 3 4 5 6 7; do
+    if [ ! -f "$ENGINE/zoo/z$k/src/lib.rs" ]; then
+      mkdir -p "$ENGINE/zoo/z$k/src"
+      echo 'pub fn register(_v: &mut Vec<zoort::Entry>) {}' > "$ENGINE/zoo/z$k/src/lib.rs"
+    fi
+  done
+  [ -f "$ENGINE/zoo/schemas.json" ] || echo '[]' > "$ENGINE/zoo/schemas.json"
+}
+
+# build_zoo: (re)generate the fixed zoo sources and build the zoo crates against $REPO
+build_zoo() {
+  build_bin zoogen || return 1
+  "$TARGET_DIR/debug/zoogen" "$ENGINE/zoo" fixed > "$TARGET_DIR/zoogen.log" 2>&1 || { cat "$TARGET_DIR/zoogen.log" >&2; return 1; }
 }
 
 # build_bin <package> [extra cargo args]: offline build from the current tree of $REPO
